@@ -218,7 +218,9 @@ pub fn edits(seed: &[u8], pairs: bool, mut f: impl FnMut(&[u8])) -> u64 {
 // ------------------------------------------------------------------------------------------
 // family 4: growth families
 
-pub const GROWTH_FAMILIES: [&str; 17] = [
+pub const GROWTH_FAMILIES: [&str; 19] = [
+    "bitmap-window-len",
+    "opt-option-len",
     "pointer-chain",
     "pointer-chain-rr",
     "pointer-chain-rdata",
@@ -510,6 +512,33 @@ pub fn growth(family: &str, n: u32, qd1: bool) -> Option<Vec<u8>> {
                     m.extend(std::iter::repeat(0xffu8).take(32));
                 }
             }
+        }
+        // NSEC with one window whose length octet is n (valid up to 32), followed by n octets ff
+        "bitmap-window-len" => {
+            if n > 255 {
+                return None;
+            }
+            m = hdr(0x8000, qd, 1, 0, 0);
+            q(&mut m);
+            m.push(0);
+            m.extend_from_slice(&[0, 47, 0, 1, 0, 0, 0, 1]);
+            m.extend_from_slice(&((3 + n) as u16).to_be_bytes());
+            m.extend_from_slice(&[0, 0, n as u8]);
+            m.extend(std::iter::repeat(0xffu8).take(n));
+        }
+        // OPT with a single option of n octets
+        "opt-option-len" => {
+            if n + 4 > 65535 - 30 {
+                return None;
+            }
+            m = hdr(0, qd, 0, 0, 1);
+            q(&mut m);
+            m.push(0);
+            m.extend_from_slice(&[0, 41, 0x04, 0xd0, 0, 0, 0, 0]);
+            m.extend_from_slice(&((4 + n) as u16).to_be_bytes());
+            m.extend_from_slice(&[0, 12]);
+            m.extend_from_slice(&(n as u16).to_be_bytes());
+            m.extend(std::iter::repeat(0u8).take(n));
         }
         // TXT records filled with empty character-strings (n in total, 65,000 per record)
         "txt-empty-strings" => {
